@@ -483,7 +483,7 @@ func growSig(r *rand.Rand, s *absSig, target int) {
 		d.Upid = rndBytes(r, 150+r.Intn(50)) // descriptor_length is one byte: keep the body below 256
 		s.Descs = append(s.Descs, d)
 	}
-	for k := 0; len(s.section()) < target && k < 300; k++ {
+	for k := 0; len(s.section()) < target && k < 300 && len(s.Descs) > 0 && s.Descs[len(s.Descs)-1].Kind == "seg"; k++ {
 		d := &s.Descs[len(s.Descs)-1]
 		if len(d.bytes()) >= 257 {
 			break
